@@ -214,8 +214,11 @@ func TestStrictFloatAgainstBigRat(t *testing.T) {
 		if r.IsInt() != (d.Class == Integer) {
 			rt.Fatalf("%q: class %v but big.Rat says IsInt=%v", text, d.Class, r.IsInt())
 		}
-		if d.Class == Integer && d.Value.Cmp(r.Num()) != 0 {
+		if d.Class == Integer && !d.Huge && d.Value.Cmp(r.Num()) != 0 {
 			rt.Fatalf("%q: value %v want %v", text, d.Value, r.Num())
+		}
+		if d.Huge || d.Tiny {
+			return // rational deliberately not materialised (documented); class was compared above
 		}
 		if d.Num == nil || d.Num.Cmp(r.Num()) != 0 || d.Den.Cmp(r.Denom()) != 0 {
 			rt.Fatalf("%q: rational %v/%v want %v", text, d.Num, d.Den, r)
